@@ -278,6 +278,7 @@ func c09Explore(c *sup.Ctx, seeds []*poolToken, u *c01Universe) {
 						w.Stats().States++
 						w.NontrivialByIndex()
 						ns := &c01State{env: ne, path: append(append([]string{}, st.path...), ed.name), seed: st.seed}
+						w.SetCase(c01Case{Seed: ns.seed, Path: ns.path, Hex: fmt.Sprintf("%x", ser)})
 						sup.Guard(w, fmt.Sprintf("%s %v", ns.seed, ns.path), func() { c01Verify(w, u, ns, ser) })
 						if d < 2 {
 							next = append(next, ns)
